@@ -149,6 +149,10 @@ class RFC8323Remote:
                     self._remote_settings["block-wise-transfer"] = True
                 elif opt.number.is_critical():
                     self.abort("Option not supported", bad_csm_option=opt.number)
+                    # The connection is over; nothing else in the message
+                    # matters, and a second unknown option must not produce
+                    # a second Abort.
+                    return
                 else:
                     pass  # ignoring elective CSM options
         elif msg.code in (PING, PONG, RELEASE, ABORT):
@@ -156,6 +160,13 @@ class RFC8323Remote:
             for opt in msg.opt.option_list():
                 if opt.number.is_critical():
                     self.abort("Unknown critical option")
+                    if msg.code in (PING, PONG):
+                        # Abort is the last message on the connection: no
+                        # Pong after it
+                        return
+                    # Release and Abort take their course below, which fails
+                    # the pending requests
+                    break
                 else:
                     pass
 
